@@ -78,9 +78,10 @@ def run(ck):
     thorough = ck.tier == "thorough"
     ck.make("drv_kvmap")
     ck.rule = ("histories = step sequences printed by TLC from KvMap.tla in generator mode (every 3-step history over "
-               "2 keys / 2 values / TTL 1-2 / absolute expiries 0-4 / time jumps 1-3, seeded simulation of 6-8 steps over 3 "
-               "keys / 3 values, counterexamples of the Dev_* self-tests); each is replayed on the real store under a "
-               "virtual wall clock with all read APIs logged after every step, under a slow wheel (both read orders), a "
+               "2 keys / 2 values / TTL 1-2 / absolute expiries 0-4 / time jumps 1-3, every 4-step TTL/expireAt/persist/"
+               "compact/close/tick history over one key, seeded simulation of 6-8 steps over 3 keys / 3 values, "
+               "counterexamples of the Dev_* self-tests); each is replayed on the real store under a "
+               "virtual wall clock with all read APIs logged after every step, under a slow wheel (both read orders; cache sizes 0-3), a "
                "10 ms wheel (eviction worker active) and with a concurrent reader; non-trivial = the history lets an "
                "expiry pass (TTL/expireAt followed by a time jump) or restarts / compacts the store")
     # ------------------------------------------------------------------ 1. model checking, self-tests, generators
@@ -98,6 +99,15 @@ def run(ck):
     jobs.append(("dev_rep", mod, cfg, dict(workers=2, dump_trace=os.path.join(ck.work, "cex_rep.json"))))
     mod, cfg = module(ck, "gen3", MaxOps=3, MaxTime=3, WorkerOn=False, Emit=True, invariants=["EmitInv"])
     jobs.append(("gen3", mod, cfg, dict(workers=4, timeout=1500)))
+    # restart / compaction focused: one key, one value, all 4-step histories (+ the open that follows a close)
+    mod, cfg = module(ck, "genR", kinds=["setttl", "exp", "per", "compact", "close", "tick"], NK=1, NV=1, MaxOps=4, MaxTime=2,
+                      MaxTtl=2, WorkerOn=False, Emit=True, invariants=["EmitInv"])
+    jobs.append(("genR", mod, cfg, dict(workers=2, timeout=1500)))
+    if thorough:
+        mod, cfg = module(ck, "mc3c0", CacheMax=0)
+        jobs.append(("mc3c0", mod, cfg, dict(workers=4, timeout=2400)))
+        mod, cfg = module(ck, "mc3c2", CacheMax=2)
+        jobs.append(("mc3c2", mod, cfg, dict(workers=4, timeout=2400)))
     nsim = 700 if thorough else 120
     mod, cfg = module(ck, "genL", NK=3, NV=3, MaxOps=8 if thorough else 7, MaxTime=4, WorkerOn=False, Emit=True,
                       invariants=["EmitInv"])
@@ -115,7 +125,7 @@ def run(ck):
         ck.transitions += r.generated
         ck.note("TLC %s: %s" % (tag, r.summary()))
     impl_bad = False
-    for tag in ("mc3", "mc4mem", "mc4disk"):
+    for tag in ("mc3", "mc4mem", "mc4disk", "mc3c0", "mc3c2"):
         if tag in res and res[tag].violated:
             impl_bad = True
             rp = ck.save_replay("impl_spec_" + tag, {"tlc.out": res[tag].out})
@@ -141,17 +151,22 @@ def run(ck):
     rng = ck.rng
     h3 = hist_lines(res["gen3"])
     hl = hist_lines(res["genL"])
-    if len(h3) < 20000 or len(hl) < 50:
-        raise vf.Infra("generator produced too few histories: %d of 3 steps, %d long" % (len(h3), len(hl)))
+    hr = [h for h in hist_lines(res["genR"]) if ("close" in h or "compact" in h) and ("setttl" in h or "exp" in h)]
+    if len(h3) < 20000 or len(hl) < 50 or len(hr) < 1000:
+        raise vf.Infra("generator produced too few histories: %d of 3 steps, %d long, %d restart" % (len(h3), len(hl), len(hr)))
     h3 = sorted(h3)
     hl = sorted(hl)
+    hr = sorted(hr)
     rng.shuffle(h3)
     rng.shuffle(hl)
+    rng.shuffle(hr)
     n3 = len(h3) if thorough else 2500
-    base = probes + hl + h3[:n3]
+    nr = len(hr) if thorough else 900
+    base = probes + hl + hr[:nr] + h3[:n3]
     cases = [("wheel=long order=0 cache=1 conc=0", h) for h in base]
     n_o1 = len(base) if thorough else 900
     cases += [("wheel=long order=1 cache=1 conc=0", h) for h in (probes + hl + h3[:n3])[:n_o1]]
+    cases += [("wheel=long order=0 cache=0 conc=0", h) for h in (hl[:150] + h3[:600] if thorough else hl[:25] + h3[:60])]
     timed = [h for h in base if "tick" in h]
     n_short = 4000 if thorough else 350
     cases += [("wheel=short order=%d cache=1 conc=0" % (i % 2), h) for i, h in enumerate(timed[:n_short])]
@@ -159,25 +174,38 @@ def run(ck):
     n_conc = 1500 if thorough else 150
     cases += [("wheel=short order=0 cache=2 conc=1", h) for h in noclose[:n_conc]]
     cases += [("wheel=long order=0 cache=3 conc=0", h) for h in hl[:200 if thorough else 40]]
-    ck.note("cases: %d (3-step histories %d of %d, long %d, short-wheel %d, concurrent %d)" % (
-        len(cases), n3, len(h3), len(hl), min(n_short, len(timed)), min(n_conc, len(noclose))))
+    ck.note("cases: %d (3-step histories %d of %d, restart/compaction histories %d of %d, long %d, short-wheel %d, "
+            "concurrent %d)" % (len(cases), n3, len(h3), nr, len(hr), len(hl), min(n_short, len(timed)),
+                                min(n_conc, len(noclose))))
     out_path, stats = drive(ck, "main", cases)
     if stats["timeouts"]:
         raise vf.Infra("drv_kvmap: %d executions exceeded the wall-clock limit" % stats["timeouts"])
     ck.evaluations = stats["executions"]
     judge(ck, "main", cases, out_path)
+    if thorough:
+        # exploration: the concurrent-reader histories once more under ThreadSanitizer (a report aborts the execution
+        # and shows up as a died store); the traces are judged by the same oracle
+        ck.make("drv_kvmap.tsan")
+        tcases = [c for c in cases if "conc=1" in c[0]][:400]
+        out_path, stats = drive(ck, "tsan", tcases, binary="drv_kvmap.tsan")
+        if stats["timeouts"]:
+            raise vf.Infra("drv_kvmap.tsan: %d executions exceeded the wall-clock limit" % stats["timeouts"])
+        ck.evaluations += stats["executions"]
+        ck.note("ThreadSanitizer build: %d concurrent-reader executions, %d aborted (race report / crash)" % (
+            stats["executions"], stats["crashed"]))
+        judge(ck, "tsan", tcases, out_path)
 
 
-def drive(ck, name, cases):
+def drive(ck, name, cases, binary="drv_kvmap"):
     cases_path = os.path.join(ck.work, "cases_%s.txt" % name)
     with open(cases_path, "w") as f:
         for c, h in cases:
             f.write("%s | %s\n" % (c, h))
     out_path = os.path.join(ck.work, "kvmap_%s.ndjson" % name)
     scratch = os.path.join(ck.work, "scratch_" + name)
-    rc, out = vf.run_driver("drv_kvmap", ["run", cases_path, out_path, scratch, min(16, vf.NCPU)], timeout=2400)
+    rc, out = vf.run_driver(binary, ["run", cases_path, out_path, scratch, min(16, vf.NCPU)], timeout=2400)
     if rc != 0:
-        raise vf.Infra("drv_kvmap failed: " + out[-2000:])
+        raise vf.Infra("%s failed: %s" % (binary, out[-2000:]))
     try:
         stats = json.loads(out.strip().splitlines()[-1])
     except Exception:
@@ -223,8 +251,11 @@ def validate_execs(ck, tag, execs, max_reject=4, par=6):
             with open(p, "w") as f:
                 for _, lines in chunk:
                     f.writelines(lines)
-            v = vf.validate_trace(os.path.join(SPECDIR, "KvMapTrace.tla"), os.path.join(SPECDIR, "KvMapTrace.cfg"), p,
-                                  tag="C12_val_%s_%d" % (tag, i), timeout=1500)
+            for attempt in (1, 2):
+                v = vf.validate_trace(os.path.join(SPECDIR, "KvMapTrace.tla"), os.path.join(SPECDIR, "KvMapTrace.cfg"), p,
+                                      tag="C12_val_%s_%d" % (tag, i), timeout=1500)
+                if not v.error:
+                    break
             if v.error:
                 raise vf.Infra("trace validation error: " + v.error)
             if v.accepted:
@@ -258,21 +289,23 @@ def nontrivial_history(h):
 def judge(ck, name, cases, out_path):
     execs = split_execs(out_path)
     good = []
-    evict = reads = 0
+    evict = reads = died = 0
     for case, lines in execs:
         txt = lines[-2] if len(lines) >= 2 else ""
         if any(l.startswith('{"e":"Crashed"') for l in lines):
-            cl = case_line(cases, case)
-            rp = ck.save_replay("%s_died_%d" % (name, case), {"trace.ndjson": "".join(lines), "case.txt": cl + "\n"})
-            ck.violation("the store crashed (signal / abort / uncaught exception) during: %s" % cl, rp)
+            died += 1
+            if died <= 3:
+                cl = case_line(cases, case)
+                rp = ck.save_replay("%s_died_%d" % (name, case), {"trace.ndjson": "".join(lines), "case.txt": cl + "\n"})
+                ck.violation("the store crashed (signal / abort / uncaught exception) during: %s" % cl, rp)
             continue
         if txt.startswith('{"e":"End"'):
             e = json.loads(txt)
             evict += e.get("evict", 0)
             reads += e.get("reads", 0)
         good.append((case, lines))
-    ck.note("%s: %d executions; evictions by the worker observed: %d; concurrent reads logged: %d" % (
-        name, len(execs), evict, reads))
+    ck.note("%s: %d executions (%d died); evictions by the worker observed: %d; concurrent reads logged: %d" % (
+        name, len(execs), died, evict, reads))
     if name == "main" and (evict == 0 or reads == 0):
         raise vf.Infra("self-test: the short-wheel runs never evicted (%d) or the reader thread logged nothing (%d)" % (evict, reads))
     rej = validate_execs(ck, name, good)
